@@ -15,8 +15,21 @@ PROP = dict(
     engines=['c11'],
     go_tags=['c11'],
     gen_files={},
-    lean_modules=["MM.Props.C11"],
+    extract_files={
+        "MM/Gen/LockC11.lean": {"cmd": ["go", "run", "{VERIF}/tools/lockshape.go", "LockC11", "{REPO}/internal/flood/flood.go", "Flooder.HandleRouteAdvertise,Flooder.HandleRouteWithdraw", "mu", "seenCache"]},
+        "MM/Gen/LockC11m.lean": {"cmd": ["go", "run", "{VERIF}/tools/lockshape.go", "LockC11m", "{REPO}/internal/routing/manager.go", "Manager.IncrementSequence", "mu", "sequence"]},
+        "MM/Gen/LockC11t.lean": {"cmd": ["go", "run", "{VERIF}/tools/lockshape.go", "LockC11t", "{REPO}/internal/routing/table.go", "Table.AddRoute", "mu", "routes"]},
+        "MM/Gen/LockC11d.lean": {"cmd": ["go", "run", "{VERIF}/tools/lockshape.go", "LockC11d", "{REPO}/internal/routing/domain.go", "DomainTable.AddRoute", "mu", "exactRoutes,wildcardBase"]},
+        "MM/Gen/LockC11f.lean": {"cmd": ["go", "run", "{VERIF}/tools/lockshape.go", "LockC11f", "{REPO}/internal/routing/forward.go", "ForwardTable.AddRoute", "mu", "routes"]},
+        "MM/Gen/LockC11a.lean": {"cmd": ["go", "run", "{VERIF}/tools/lockshape.go", "LockC11a", "{REPO}/internal/routing/agent.go", "AgentTable.AddRoute", "mu", "routes"]},
+    },
+    lean_modules=["MM.Props.C11", "MM.Props.C11Lock"],
     theorems=[
+        "MM.C11.Lock.advertise_test_and_set_atomic",
+        "MM.C11.Lock.withdraw_test_and_set_atomic",
+        "MM.C11.Lock.no_unlocked_mark_helper",
+        "MM.C11.Lock.sequence_increment_atomic",
+        "MM.C11.Lock.addRoute_atomic",
         "MM.C11.C11_seenby_nodup",
         "MM.C11.C11_no_self_path",
         "MM.C11.C11_deliver_decreases",
@@ -32,6 +45,7 @@ PROP = dict(
     rule="cases = random topology (chain/ring/star/clique/tree+extra edges, 2..5 agents, rarely 9..20; thorough up to 7) x random local routes (CIDR v4/v6, domain exact/wildcard, forward; base metrics 0..10 and 65534) x op schedule written while driving the real mesh: bring links up (with/without table replay, before or between deliveries), deliver/duplicate/lose a chosen queued frame, announce, withdraw, expire a cached key, replay a table, stale cleanup; every case drains to quiescence and dumps the whole state. After every op both sides print the acting agent's counter, seen cache, all four tables (metric, sequence, path, last-update tick) and the touched queues (origin, sequence, path, seen-by, routes+metrics). Non-trivial = an op that handled a frame, replayed a table or changed a cache/table. spec (engine c11): every printed table entry has no agent twice on its path and not the storing agent; every queued seen-by list is duplicate free; no agent answers `new` twice for one (origin, sequence) key (tags reprocessed-while-cached / reprocessed-after-expiry)",
     nontrivial=lambda op, out: out.startswith(("r=new", "r=seen", "r=drop", "r=ord:", "r=removed")),
     trusted_base=[
+        'tools/lockshape.go (go/ast): lock-shape facts MM/Gen/LockC11*.lean on which the atomic-step ties (MM/Props/C11Lock.lean) are decided; goroutine scheduling itself is exercised only by the `race` stress op',
         'MM/Model/C11.lean models HandleRouteAdvertise / HandleRouteWithdraw / floodAdvertisementEncrypted / floodWithdrawal / floodFrame / AnnounceLocalRoutes / WithdrawLocalRoutes / SendFullTable / cleanupSeenCache (flood.go), Process*RouteAdvertise / AddLocal*Route / CleanupStale*Routes (manager.go) and the four AddRoute update rules; tied to the code by the differential run (N real Flooder+Manager pairs over a queueing PeerSender)',
         'harness/main/eng_c11.go delivers frames the way Agent.handleRouteAdvertise / handleRouteWithdraw do (DecodeRouteAdvertise / DecodeRouteWithdraw, then HandleRouteAdvertise / HandleRouteWithdraw with the decoded fields); Agent.handlePeerConnected -> SendFullTable is the `replay` op',
         'harness accessors (overlay, add-only): flood.C11ExpireSeen runs the production cleanupSeenCache on one aged entry; routing.C11Stamp rewrites LastUpdate of the entries touched by an op to a logical tick',
